@@ -162,8 +162,8 @@ def gen_program(rnd, lines, cols, nops, *, malformed=False, maxdepth=4, dump_pro
             ops.append("ska %d %d %d" % (l - sh.xl, c - sh.xc, w)); mark(c, w); note("ska")
         elif r < 0.45:
             c = col(); l = line()
-            cp = rnd.choice(ASCII + LATIN)
-            ops.append("cha %d %d %x" % (l - sh.xl, c - sh.xc, cp)); mark(c, 1); note("cha")
+            cp = rnd.choice(ASCII + LATIN) if rnd.random() < 0.85 else rnd.choice(WIDE + COMB + (BAD if malformed else []))
+            ops.append("cha %d %d %x" % (l - sh.xl, c - sh.xc, cp)); mark(c, max(1, cpw(cp))); note("cha")
         elif r < 0.51:
             c, w = span(); l = line()
             e = c + w - 1 if rnd.random() < 0.9 else c - rnd.randint(0, 2)
@@ -203,7 +203,7 @@ def gen_program(rnd, lines, cols, nops, *, malformed=False, maxdepth=4, dump_pro
             elif k < 0.85:
                 ops.append("skt %d" % (col() - sh.xc)); note("skt")
             else:
-                ops.append("ch %x" % rnd.choice(ASCII + LATIN)); note("ch")
+                ops.append("ch %x" % (rnd.choice(ASCII + LATIN) if rnd.random() < 0.8 else rnd.choice(WIDE + COMB + (BAD if malformed else [])))); note("ch")
         elif r < 0.86:
             if len(sh.stack) < maxdepth:
                 if rnd.random() < 0.65:
